@@ -1,6 +1,6 @@
 ------------------------------ MODULE MC_Conv ------------------------------
 (* generator of exact convolution values (C14) and self-checks of the reference *)
-EXTENDS Convolve, TLC, Json
+EXTENDS Convolve, TLC, Json, IOUtils, FiniteSets
 CONSTANTS MaxOrder, MaxKernel, Denom, MaxSum
 Src(id) == CASE id = 0 -> [n |-> 0, t |-> <<0, 1, 3, 4>>, c |-> <<2, -1, 3>>]
              [] id = 1 -> [n |-> 1, t |-> <<0, 1, 3, 4, 6>>, c |-> <<1, -2, 3>>]
@@ -18,19 +18,56 @@ Kern(id) == CASE id = 1 -> <<R(0), R(1)>>                                       
               [] id = 5 -> <<Norm(-1, 2), R(0), Norm(1, 2), Norm(3, 2)>>
               [] id = 6 -> <<R(-1), Norm(-1, 2), R(0), Norm(1, 2), R(1)>>       \* symmetric, 5 knots
               [] OTHER -> <<R(-1), Norm(-1, 2), R(0), Norm(1, 2), R(1), R(2)>>  \* 6 knots
+(***************************************************************************)
+(* Systematic part: for every order n a few integer knot families of       *)
+(* minimal length 2n+2 and two knots more, every unit coefficient vector   *)
+(* (convolution is linear: each source basis function alone) and one mixed *)
+(* vector; kernels are all increasing sequences of 2..MaxKernel points of  *)
+(* a half-integer lattice.  Sel thins the product deterministically        *)
+(* (Keep = 1: everything; the environment variable CONVSALT rotates the    *)
+(* choice with the seed).                                                  *)
+(***************************************************************************)
+CONSTANTS Keep, OnlyN, OnlyF, OnlyQ      \* Only* = 99: no restriction (used to probe the 32-bit limits)
+Salt == IF "CONVSALT" \in DOMAIN IOEnv THEN atoi(IOEnv.CONVSALT) ELSE 0
+Fam(f, len) == CASE f = 1 -> [i \in 1 .. len |-> i - 1]
+                 [] f = 2 -> [i \in 1 .. len |-> 3 * ((i - 1) \div 2) + ((i - 1) % 2)]                  \* 0 1 3 4 6 7 ...
+                 [] OTHER -> SubSeq(<<0, 2, 3, 6, 7, 8, 11, 13, 14, 17, 19, 20, 21, 24>>, 1, len)                   \* irregular steps 1..3
+SysSrc(n, f, extra, ci) ==
+    LET len == 2 * n + 2 + extra
+        nc == len - n - 1
+    IN  [n |-> n, t |-> Fam(f, len),
+         c |-> IF ci = 0 THEN [j \in 1 .. nc |-> IF j % 3 = 1 THEN 2 ELSE IF j % 3 = 2 THEN -1 ELSE 3]
+               ELSE [j \in 1 .. nc |-> IF j = ci THEN 1 ELSE 0]]
+Lat == <<R(-2), R(-1), Norm(-1, 2), R(0), Norm(1, 2), R(1), R(2)>>
+RECURSIVE SeqOfSet(_)
+SeqOfSet(S) == IF S = {} THEN <<>> ELSE LET m == CHOOSE x \in S : \A y \in S : x <= y IN <<Lat[m]>> \o SeqOfSet(S \ {m})
+KernIds == {S \in SUBSET (1 .. Len(Lat)) : Cardinality(S) >= 2 /\ Cardinality(S) <= MaxKernel}
+Code(S) == LET RECURSIVE H(_) H(T) == IF T = {} THEN 0 ELSE LET m == CHOOSE x \in T : TRUE IN 2 ^ m + H(T \ {m}) IN H(S)
+
 VARIABLES src, kern
-Init == src \in {i \in 0 .. 8 : Src(i).n <= MaxOrder} /\ kern = 0
-Next == kern = 0 /\ kern' \in {k \in 1 .. 7 : Len(Kern(k)) <= MaxKernel /\ Src(src).n + Len(Kern(k)) - 1 <= MaxSum} /\ UNCHANGED src
+(* src: a record [n, f, extra, ci]; f = 0 marks the hand-written catalogue entry Src(ci).  kern: {} (not chosen), {100 + k}   *)
+(* for the catalogue kernel Kern(k), or a set of lattice indices                                                            *)
+IsSys(x) == x.f # 0
+SrcOf(x) == IF IsSys(x) THEN SysSrc(x.n, x.f, x.extra, x.ci) ELSE Src(x.ci)
+KernOf(k) == IF \E i \in k : i > 100 THEN Kern((CHOOSE i \in k : TRUE) - 100) ELSE SeqOfSet(k)
+Init == kern = {} /\
+        src \in {[n |-> Src(i).n, f |-> 0, extra |-> 0, ci |-> i] : i \in {i \in 0 .. 8 : Src(i).n <= MaxOrder /\ OnlyF = 99}} \cup
+                {x \in [n : 0 .. MaxOrder, f : 1 .. 3, extra : {0, 2}, ci : 0 .. 8] : x.ci <= (2 * x.n + 2 + x.extra) - x.n - 1 /\ OnlyN \in {99, x.n} /\ OnlyF \in {99, x.f}}
+Next == kern = {} /\ UNCHANGED src /\
+        IF IsSys(src)
+        THEN kern' \in {S \in KernIds : src.n + Cardinality(S) - 1 <= MaxSum - (IF src.f = 3 THEN 1 ELSE 0) /\ OnlyQ \in {99, Cardinality(S) - 1}
+                                         /\ (Code(S) + 7 * src.n + 3 * src.f + 5 * src.ci + src.extra + Salt) % Keep = 0}
+        ELSE kern' \in {{100 + k} : k \in {k \in 1 .. 7 : Len(Kern(k)) <= MaxKernel /\ Src(src.ci).n + Len(Kern(k)) - 1 <= MaxSum}}
 Spec == Init /\ [][Next]_<<src, kern>>
 RatJ(r) == <<r[1], r[2]>>
-Check == kern # 0 =>
-    LET s == Src(src)  tau == Kern(kern)  rho == ConvKnots(s.t, tau)
+Check == kern # {} =>
+    LET s == SrcOf(src)  tau == KernOf(kern)  rho == ConvKnots(s.t, tau)
         lo == rho[1]  hi == rho[Len(rho)]
         xs == {x \in {Norm(k, Denom) : k \in (Denom * (s.t[1] - 3)) .. (Denom * (s.t[Len(s.t)] + 4))} : RLt(lo, x) /\ RLe(x, hi)}
         allones == \A i \in 1 .. Len(s.c) : s.c[i] = 1
         (* an all-ones table is identically 1 on its fully supported range [t_n, t_m]; convolved with a unit-area kernel it is 1 on [t_n + tau_q, t_m + tau_0] *)
         OnesOK == allones => \A x \in xs : (RLe(RAdd(R(s.t[s.n + 1]), tau[Len(tau)]), x) /\ RLe(x, RAdd(R(s.t[Len(s.t) - s.n]), tau[1]))) => ConvValue(s.c, s.t, s.n, tau, x) = One
-    IN  /\ Assert(OnesOK, <<"all-ones not preserved", src, kern>>)
+    IN  /\ Assert(OnesOK, <<"all-ones not preserved", s, tau>>)
         /\ PrintT(ToJson([n |-> s.n, t |-> s.t, c |-> s.c, tau |-> [i \in 1 .. Len(tau) |-> RatJ(tau[i])], order |-> ConvOrder(s.n, tau),
                           knots |-> [i \in 1 .. Len(rho) |-> RatJ(rho[i])],
                           pts |-> LET RECURSIVE Q(_) Q(S) == IF S = {} THEN <<>> ELSE LET x == CHOOSE y \in S : \A z \in S : RLe(y, z) IN <<<<RatJ(x), RatJ(ConvValue(s.c, s.t, s.n, tau, x))>>>> \o Q(S \ {x}) IN Q(xs)]))
